@@ -60,9 +60,11 @@ class Parameter(ir.Value):
     def _realize(self, builder: _builder.GraphBuilder) -> Parameter:
         """Qualify the name and register as a graph initializer.
 
-        Uses the builder's *root* graph builder to qualify the name and
-        register the initializer.  When the builder is a sub-builder (e.g.
-        for a Scan body), this ensures the parameter is stored in the
+        The name is qualified with the module scope of *builder* itself (a
+        sub-builder starts with a copy of its parent's scope and carries the
+        modules entered inside the subgraph), and the initializer is
+        registered in the *root* graph.  When the builder is a sub-builder
+        (e.g. for a Scan body), this ensures the parameter is stored in the
         main graph — making it visible as an implicit input to the
         subgraph rather than incorrectly placed inside it.
 
@@ -80,7 +82,7 @@ class Parameter(ir.Value):
                 "initialized with a name before realization."
             )
         root = builder.root
-        self_name = self.name = root._qualify_initializer_name(self_name)  # pylint: disable=protected-access
+        self_name = self.name = builder._qualify_initializer_name(self_name)  # pylint: disable=protected-access
         root.graph.initializers[self_name] = self
         self._realized = True
         return self
